@@ -167,3 +167,73 @@ def walk_exprs(e):
             out.append(c)
             out.extend(walk_exprs(c))
     return out
+
+
+
+def exercise_library():
+    """Use the library the way an earlier part of a long-running process would
+    have, BEFORE any check runs (called once in the main process; the worker
+    processes are forked from it and inherit the module state): parses with
+    options, parses that fail, and every kind of edit on throw-away trees.
+    By C17 none of this may influence a later parse; with it in place every
+    check also notices state that leaks from one call into the next (a
+    module-level table extended in place, a shared default list, a cached
+    coerced group, a singleton token that ends up in a tree)."""
+    from TexSoup.data import TexArgs, BraceGroup
+    try:
+        from TexSoup.tokens import MATH_ENV_NAMES, SKIP_ENV_NAMES
+        names = tuple(MATH_ENV_NAMES) + ('itemize', 'document', 'center', 'a', 'b', 'code', 'zz', 'quote')
+    except Exception:      # noqa
+        names = ('align', 'equation', 'a')
+    docs = [r'\begin{align} \textbf{unfinished [ \end{align} t \begin{code}x{\end{code}',
+            r'\begin{document}\begin{a}$x \in S$ \item u\end{a}\begin{verbatim}\end{verbatim}\end{document}',
+            r'\section{A} text \textbf x \def\foo{1} $a \cup b$ \noindent more \alpha\beta',
+            r'\begin{itemize}\bullet one \alpha two\item[x] {y} b\end{itemize} and \beta{x} \gamma',
+            r'\newcommand{\eeq}{\end{equation}} \cmd{a}{a}{b} \begin{lstlisting}\end{lstlisting}',
+            '{', r'\begin{a}', '$', r'\item', r'\begin{equation}\item x\end{equation}', 'a\x00b\\']
+    for d in docs:
+        for tol in (0, 1):
+            for sk in ((), names):
+                try:
+                    soup = _pkg.TexSoup(d, skip_envs=sk, tolerance=tol)
+                    str(soup), repr(soup.expr), list(soup.descendants), list(soup.text)
+                except BaseException:      # noqa
+                    pass
+    edits = [
+        lambda s: s.find('bullet').__setattr__('name', 'item') or s.find('item').append(' first'),
+        lambda s: s.find('in').args.append('{z}'),
+        lambda s: s.find('noindent').args.extend(['{q}', '[r]']),
+        lambda s: s.find('cmd').args.insert(1, '{n}') or s.find('cmd').args.pop(),
+        lambda s: s.find('section').args.reverse(),
+        lambda s: s.find('alpha').delete(),
+        lambda s: s.find('beta').replace_with('R', s.find('gamma').copy()),
+        lambda s: setattr(s.find('section'), 'string', 'S'),
+        lambda s: setattr(s.find('a'), 'name', 'renamed'),
+        lambda s: s.find('verbatim').contents and setattr(list(s.find('verbatim').contents)[0], 'text', 'EDITED'),
+        lambda s: s.find('lstlisting').append('APP'),
+        lambda s: s.insert(0, 'lead ', s.find('textbf').copy()),
+        lambda s: list(s.search_regex('[a-z]+')),
+    ]
+    for e in edits:
+        for d in docs[:5]:
+            try:
+                e(_pkg.TexSoup(d))
+            except BaseException:      # noqa
+                pass
+    try:
+        a = TexArgs(['{a}', '[b]', '{a}'])
+        a.append('{c}'), a.insert(-1, '[d]'), a.remove('{a}'), a.pop(0), a.reverse(), a.extend(['{e}'])
+        a.append(BraceGroup('g'))
+        a.clear()
+    except BaseException:      # noqa
+        pass
+    try:
+        from TexSoup.utils import Buffer
+        from TexSoup.category import categorize
+        from TexSoup.tokens import tokenize
+        t = tokenize(categorize(r'\ab cd{e}'))
+        t.peek(), t.forward(1), t.backward(1), list(Buffer(t))
+        b = Buffer('abc')
+        next(b), b.peek((-1, 2)), b.forward_until(lambda c: c == 'z'), b.hasNext()
+    except BaseException:      # noqa
+        pass
